@@ -66,7 +66,11 @@ DateToZonedCells == {[k |-> "PlainDate.toZonedUtc", n |-> n, tt |-> tt] : n \in 
 InstNewCells == {[k |-> "Instant.new", ns |-> Add(b, FromInt(d))] : b \in {MaxInstantBig, Neg(MaxInstantBig)}, d \in Deltas} \cup {[k |-> "Instant.new", ns |-> MulSmall(MaxInstantBig, 2)]}
 InstAddCells == {[k |-> "Instant.add", i |-> Add(b, FromInt(d0)), ns |-> FromInt(d), sub |-> s] : b \in {MaxInstantBig, Neg(MaxInstantBig)}, d0 \in {-1, 0, 1} , d \in Deltas, s \in BOOLEAN} 
 InstAddCellsOK == {c \in InstAddCells : InInstantRange(c.i)}
+\* the argument is a 64-bit integer: its own extremes (|i64::MIN| is not representable - a sign trick overflows there) are inputs too
+I64Max == Add(Add(K9(K9(FromInt(9))), K9(FromInt(223372036))), FromInt(854775807))
+I64Min == Neg(Add(I64Max, FromInt(1)))
 InstMsCells == {[k |-> "Instant.fromEpochMs", ms |-> Add(b, FromInt(d))] : b \in {K9(FromInt(8640000)), Neg(K9(FromInt(8640000)))}, d \in Deltas}
+               \cup {[k |-> "Instant.fromEpochMs", ms |-> m] : m \in {I64Max, Sub(I64Max, FromInt(1)), I64Min, Add(I64Min, FromInt(1))}}
 InstRoundCells == {[k |-> "Instant.round", i |-> Add(b, FromInt(d0)), u |-> u, inc |-> inc, mode |-> m] :
                      b \in {MaxInstantBig, Neg(MaxInstantBig)}, d0 \in {-1, 0, 1}, u \in {"hour", "second", "nanosecond"}, inc \in {1, 2, 24}, m \in {"ceil", "floor", "expand", "trunc", "halfExpand"}}
 InstRoundCellsOK == {c \in InstRoundCells : InInstantRange(c.i) /\ (c.inc = 24 => c.u = "hour") /\ (c.inc = 2 => c.u # "hour" \/ TRUE)}
